@@ -97,7 +97,6 @@ theorem mob_dyadic (a : ℕ) : mob ((a : ℝ) / 2 ^ KT) = (gNum a : ℝ) / (gDen
   push_cast
   rw [div_eq_div_iff (by positivity) (by positivity)]
   field_simp
-  ring
 
 /-! ## Monotonicity of `nitsToPq` -/
 
@@ -234,6 +233,25 @@ theorem pqToNits_strictMono {a b : ℝ} (ha : c1 ^ m2 ≤ a) (hab : a < b) (hb :
   rw [nitsToPq_pqToNits ha (hab.le.trans hb), nitsToPq_pqToNits (ha.trans hab.le) hb]
   exact hab
 
+/-- below `c1^m2` (≈ 7.3·10⁻⁷, i.e. below code 0.003) the numerator clamp is active and the result is 0 nits -/
+theorem pqToNits_clamp {x : ℝ} (hx : x ≤ c1 ^ m2) : pqToNits x = 0 := by
+  unfold pqToNits
+  split_ifs with h0
+  · have hxp : x ^ (1 / m2) ≤ c1 := by
+      have := Real.rpow_le_rpow h0.le hx (one_div_pos.mpr m2_pos).le
+      rwa [rpow_m2_inv c1_pos.le] at this
+    have hm : max (x ^ (1 / m2) - c1) 0 = 0 := max_eq_right (by linarith)
+    rw [hm, zero_div, Real.zero_rpow (one_div_pos.mpr m1_pos).ne', zero_mul]
+  · rfl
+
+/-- `pqToNits` is non-decreasing on `(-∞, 1]` (constant 0 up to `c1^m2`, then strictly increasing) -/
+theorem pqToNits_mono {a b : ℝ} (hab : a ≤ b) (hb : b ≤ 1) : pqToNits a ≤ pqToNits b := by
+  rcases le_or_gt a (c1 ^ m2) with h | h
+  · rw [pqToNits_clamp h]; exact pqToNits_nonneg hb
+  · rcases hab.lt_or_eq with h' | h'
+    · exact (pqToNits_strictMono h.le h' hb).le
+    · exact (congrArg pqToNits h').le
+
 theorem pqToNits_zero : pqToNits 0 = 0 := by
   unfold pqToNits; simp
 
@@ -271,63 +289,370 @@ theorem lt_rpow_m2_of_pow_lt {g p : ℝ} (hg : 0 ≤ g) (h : p ^ 32 < g ^ 2523) 
 
 /-! ## Lifting the certificate checkers -/
 
+/-- integer cross-multiplied power inequality → inequality of powers of quotients (exponents kept symbolic so
+that no tactic ever tries to evaluate a power) -/
+theorem cast_div_pow_le {a b c d m n : ℕ} (hb : 0 < b) (hd : 0 < d) (h : a ^ m * d ^ n ≤ c ^ n * b ^ m) :
+    ((a : ℝ) / b) ^ m ≤ ((c : ℝ) / d) ^ n := by
+  have hbR : (0 : ℝ) < b := by exact_mod_cast hb
+  have hdR : (0 : ℝ) < d := by exact_mod_cast hd
+  rw [div_pow, div_pow, div_le_div_iff₀ (pow_pos hbR m) (pow_pos hdR n)]
+  exact_mod_cast h
+
+theorem cast_div_pow_lt {a b c d m n : ℕ} (hb : 0 < b) (hd : 0 < d) (h : a ^ m * d ^ n < c ^ n * b ^ m) :
+    ((a : ℝ) / b) ^ m < ((c : ℝ) / d) ^ n := by
+  have hbR : (0 : ℝ) < b := by exact_mod_cast hb
+  have hdR : (0 : ℝ) < d := by exact_mod_cast hd
+  rw [div_pow, div_pow, div_lt_div_iff₀ (pow_pos hbR m) (pow_pos hdR n)]
+  exact_mod_cast h
+
+theorem gDen_pos (a : ℕ) : 0 < gDen a := by unfold gDen; positivity
+theorem two_pow_KT_pos : 0 < 2 ^ KT := by positivity
+
+theorem cast_two_pow_KT : ((2 ^ KT : ℕ) : ℝ) = 2 ^ KT := by push_cast; rfl
+
+/-- the real content of a `certLt`-style pair of inequalities -/
+theorem nitsToPq_lt_of_pows {y t g p : ℝ} (hy : 0 ≤ y) (ht : 0 ≤ t) (hp : 0 ≤ p)
+    (h1 : y ^ 1305 ≤ t ^ 8192) (hg : mob t = g) (h2 : g ^ 2523 < p ^ 32) : nitsToPq (10000 * y) < p := by
+  have hyt := rpow_m1_le_of_pow_le hy ht h1
+  have hm : mob (y ^ m1) ≤ mob t := mob_mono (Real.rpow_nonneg hy _) hyt
+  have hg0 : 0 ≤ g := hg ▸ (mob_pos ht).le
+  rw [nitsToPq_eq]
+  have e : 10000 * y / 10000 = y := by field_simp
+  rw [e]
+  calc mob (y ^ m1) ^ m2
+      ≤ mob t ^ m2 := Real.rpow_le_rpow (mob_pos (Real.rpow_nonneg hy _)).le hm m2_pos.le
+    _ = g ^ m2 := by rw [hg]
+    _ < p := rpow_m2_lt_of_pow_lt hg0 hp h2
+
+/-- the real content of a `certGt`-style pair of inequalities -/
+theorem nitsToPq_gt_of_pows {y t g p : ℝ} (hy : 0 ≤ y) (ht : 0 ≤ t)
+    (h1 : t ^ 8192 ≤ y ^ 1305) (hg : mob t = g) (h2 : p ^ 32 < g ^ 2523) : p < nitsToPq (10000 * y) := by
+  have hyt := le_rpow_m1_of_pow_le hy h1
+  have hm : mob t ≤ mob (y ^ m1) := mob_mono ht hyt
+  have hg0 : 0 ≤ g := hg ▸ (mob_pos ht).le
+  rw [nitsToPq_eq]
+  have e : 10000 * y / 10000 = y := by field_simp
+  rw [e]
+  calc p < g ^ m2 := lt_rpow_m2_of_pow_lt hg0 h2
+    _ = mob t ^ m2 := by rw [hg]
+    _ ≤ mob (y ^ m1) ^ m2 := Real.rpow_le_rpow (mob_pos ht).le hm m2_pos.le
+
+set_option exponentiation.threshold 100000 in
 /-- a successful `certLt` check proves `nitsToPq (10000 · yn/yd) < pn/pd` -/
 theorem nitsToPq_lt_of_certLt {yn yd a pn pd : ℕ} (hyd : 0 < yd) (hpd : 0 < pd)
     (h : certLt yn yd a pn pd = true) : nitsToPq (10000 * ((yn : ℝ) / yd)) < (pn : ℝ) / pd := by
   simp only [certLt, Bool.and_eq_true, decide_eq_true_eq] at h
-  obtain ⟨h1, h2⟩ := h
-  have hydR : (0 : ℝ) < yd := by exact_mod_cast hyd
-  have hpdR : (0 : ℝ) < pd := by exact_mod_cast hpd
-  have hKT : (0 : ℝ) < 2 ^ KT := by positivity
-  have hy : (0 : ℝ) ≤ (yn : ℝ) / yd := by positivity
-  have ht : (0 : ℝ) ≤ (a : ℝ) / 2 ^ KT := by positivity
-  have h1' : ((yn : ℝ) / yd) ^ 1305 ≤ ((a : ℝ) / 2 ^ KT) ^ 8192 := by
-    rw [div_pow, div_pow, div_le_div_iff₀ (pow_pos hydR _) (pow_pos hKT _)]
-    exact_mod_cast h1
-  have hyt := rpow_m1_le_of_pow_le hy ht h1'
-  have hgd : (0 : ℝ) < (gDen a : ℝ) := by
-    have : 0 < gDen a := by unfold gDen; positivity
-    exact_mod_cast this
-  have hgn : (0 : ℝ) ≤ (gNum a : ℝ) := by positivity
-  have h2' : ((gNum a : ℝ) / gDen a) ^ 2523 < ((pn : ℝ) / pd) ^ 32 := by
-    rw [div_pow, div_pow, div_lt_div_iff₀ (pow_pos hgd _) (pow_pos hpdR _)]
-    exact_mod_cast h2
-  have hm : mob (((yn : ℝ) / yd) ^ m1) ≤ mob ((a : ℝ) / 2 ^ KT) := mob_mono (Real.rpow_nonneg hy _) hyt
-  rw [nitsToPq_eq]
-  have e : 10000 * ((yn : ℝ) / yd) / 10000 = (yn : ℝ) / yd := by field_simp
-  rw [e]
-  calc mob (((yn : ℝ) / yd) ^ m1) ^ m2
-      ≤ mob ((a : ℝ) / 2 ^ KT) ^ m2 := Real.rpow_le_rpow (mob_pos (Real.rpow_nonneg hy _)).le hm m2_pos.le
-    _ = ((gNum a : ℝ) / gDen a) ^ m2 := by rw [mob_dyadic]
-    _ < (pn : ℝ) / pd := rpow_m2_lt_of_pow_lt (by positivity) (by positivity) h2'
+  have h1 := cast_div_pow_le hyd two_pow_KT_pos h.1
+  have h2 := cast_div_pow_lt (gDen_pos a) hpd h.2
+  clear h
+  rw [cast_two_pow_KT] at h1
+  exact nitsToPq_lt_of_pows (by positivity) (by positivity) (by positivity) h1 (mob_dyadic a) h2
 
+set_option exponentiation.threshold 100000 in
 /-- a successful `certGt` check proves `pn/pd < nitsToPq (10000 · yn/yd)` -/
 theorem nitsToPq_gt_of_certGt {yn yd a pn pd : ℕ} (hyd : 0 < yd) (hpd : 0 < pd)
     (h : certGt yn yd a pn pd = true) : (pn : ℝ) / pd < nitsToPq (10000 * ((yn : ℝ) / yd)) := by
   simp only [certGt, Bool.and_eq_true, decide_eq_true_eq] at h
-  obtain ⟨h1, h2⟩ := h
+  have h1 := cast_div_pow_le two_pow_KT_pos hyd h.1
+  have h2 := cast_div_pow_lt hpd (gDen_pos a) h.2
+  clear h
+  rw [cast_two_pow_KT] at h1
+  exact nitsToPq_gt_of_pows (by positivity) (by positivity) h1 (mob_dyadic a) h2
+
+/-! ## The certified tie points and brackets -/
+
+/-- the margin `mu` of the tables, in code units -/
+def mu : ℝ := 1 / 1000000
+
+/-- lower end (nits) of the certified bracket of code `c ≥ 1` -/
+def brLo (c : ℕ) : ℝ := 10000 * ((yUp (c - 1) : ℝ) / ((2 ^ SY : ℕ) : ℝ))
+/-- upper end (nits) of the certified bracket of code `c ≤ 4094` -/
+def brHi (c : ℕ) : ℝ := 10000 * ((yDown c : ℝ) / ((2 ^ SY : ℕ) : ℝ))
+
+theorem two_pow_SY_pos : 0 < 2 ^ SY := by positivity
+
+theorem brLo_nonneg (c : ℕ) : 0 ≤ brLo c := by unfold brLo; positivity
+theorem brHi_nonneg (c : ℕ) : 0 ≤ brHi c := by unfold brHi; positivity
+
+theorem pDen_pos : 0 < pDen := by unfold pDen muDen; norm_num
+
+theorem pDown_cast (j : ℕ) : (pDown j : ℝ) / pDen = ((j : ℝ) + 1 / 2 - mu) / 4095 := by
+  have h : pDown j + 1 = (2 * j + 1) * 500000 := by unfold pDown muDen; omega
+  have h' : (pDown j : ℝ) = (2 * j + 1) * 500000 - 1 := by
+    have := congrArg (Nat.cast : ℕ → ℝ) h
+    push_cast at this
+    linarith
+  rw [h']
+  unfold pDen muDen mu
+  push_cast
+  field_simp
+  ring
+
+theorem pUp_cast (j : ℕ) : (pUp j : ℝ) / pDen = ((j : ℝ) + 1 / 2 + mu) / 4095 := by
+  have h' : (pUp j : ℝ) = (2 * j + 1) * 500000 + 1 := by
+    unfold pUp muDen; push_cast; norm_num
+  rw [h']
+  unfold pDen muDen mu
+  push_cast
+  field_simp
+  ring
+
+/-- just below tie point `j + 1/2`: the exact code value of `brHi j` is less than `j + 1/2 - mu` -/
+theorem bnd_down {j : ℕ} (hj : j < 4095) : 4095 * nitsToPq (brHi j) < (j : ℝ) + 1 / 2 - mu := by
+  have h := bnd_ok (Nat.zero_le j) hj
+  simp only [bndCheck, Bool.and_eq_true] at h
+  have := nitsToPq_lt_of_certLt two_pow_SY_pos pDen_pos h.1
+  rw [pDown_cast] at this
+  unfold brHi
+  linarith
+
+/-- just above tie point `j + 1/2`: the exact code value of `brLo (j+1)` is more than `j + 1/2 + mu` -/
+theorem bnd_up {j : ℕ} (hj : j < 4095) : (j : ℝ) + 1 / 2 + mu < 4095 * nitsToPq (brLo (j + 1)) := by
+  have h := bnd_ok (Nat.zero_le j) hj
+  simp only [bndCheck, Bool.and_eq_true] at h
+  have := nitsToPq_gt_of_certGt two_pow_SY_pos pDen_pos h.2
+  rw [pUp_cast] at this
+  unfold brLo
+  rw [Nat.add_sub_cancel]
+  linarith
+
+/-- **Every real luminance in the certified bracket of code `c` has exact code value within `1/2 - mu` of `c`.** -/
+theorem code_of_real {c : ℕ} (hc : c ≤ 4095) {v : ℝ} (hv0 : 0 ≤ v) (hv1 : v ≤ 10000)
+    (hlo : c = 0 ∨ brLo c ≤ v) (hhi : c = 4095 ∨ v ≤ brHi c) :
+    |4095 * nitsToPq v - c| < 1 / 2 - mu := by
+  have hmu : mu = 1 / 1000000 := rfl
+  rw [abs_sub_lt_iff]
+  constructor
+  · -- upper side
+    by_cases h4 : c = 4095
+    · have := nitsToPq_mono hv0 hv1
+      rw [nitsToPq_yMax] at this
+      subst h4
+      push_cast
+      linarith
+    · have h := hhi.resolve_left h4
+      have h1 := nitsToPq_mono hv0 h
+      have h2 := bnd_down (j := c) (by omega)
+      linarith
+  · -- lower side
+    by_cases h0 : c = 0
+    · subst h0
+      have := nitsToPq_pos hv0
+      push_cast
+      linarith
+    · have h := hlo.resolve_left h0
+      have hc1 : 1 ≤ c := by omega
+      have h1 := nitsToPq_mono (brLo_nonneg c) h
+      have h2 := bnd_up (j := c - 1) (by omega)
+      rw [Nat.sub_add_cancel hc1] at h2
+      have : ((c - 1 : ℕ) : ℝ) = (c : ℝ) - 1 := by rw [Nat.cast_sub hc1]; simp
+      rw [this] at h2
+      linarith
+
+/-- the bracket membership checker, lifted: the rational luminance `yn/yd` (normalised) has code `c` with margin -/
+theorem code_of_rat {yn yd c : ℕ} (h : inBracket yn yd c = true) :
+    |4095 * nitsToPq (10000 * ((yn : ℝ) / yd)) - c| < 1 / 2 - mu := by
+  simp only [inBracket, Bool.and_eq_true, Bool.or_eq_true, decide_eq_true_eq, beq_iff_eq] at h
+  obtain ⟨⟨⟨⟨hc, hyd⟩, hyn⟩, hlo⟩, hhi⟩ := h
   have hydR : (0 : ℝ) < yd := by exact_mod_cast hyd
-  have hpdR : (0 : ℝ) < pd := by exact_mod_cast hpd
-  have hKT : (0 : ℝ) < 2 ^ KT := by positivity
-  have hy : (0 : ℝ) ≤ (yn : ℝ) / yd := by positivity
-  have ht : (0 : ℝ) ≤ (a : ℝ) / 2 ^ KT := by positivity
-  have h1' : ((a : ℝ) / 2 ^ KT) ^ 8192 ≤ ((yn : ℝ) / yd) ^ 1305 := by
-    rw [div_pow, div_pow, div_le_div_iff₀ (pow_pos hKT _) (pow_pos hydR _)]
-    exact_mod_cast h1
-  have hyt := le_rpow_m1_of_pow_le hy h1'
-  have hgd : (0 : ℝ) < (gDen a : ℝ) := by
-    have : 0 < gDen a := by unfold gDen; positivity
-    exact_mod_cast this
-  have hgn : (0 : ℝ) ≤ (gNum a : ℝ) := by positivity
-  have h2' : ((pn : ℝ) / pd) ^ 32 < ((gNum a : ℝ) / gDen a) ^ 2523 := by
-    rw [div_pow, div_pow, div_lt_div_iff₀ (pow_pos hpdR _) (pow_pos hgd _)]
-    exact_mod_cast h2
-  have hm : mob ((a : ℝ) / 2 ^ KT) ≤ mob (((yn : ℝ) / yd) ^ m1) := mob_mono ht hyt
-  rw [nitsToPq_eq]
-  have e : 10000 * ((yn : ℝ) / yd) / 10000 = (yn : ℝ) / yd := by field_simp
-  rw [e]
-  calc (pn : ℝ) / pd < ((gNum a : ℝ) / gDen a) ^ m2 := lt_rpow_m2_of_pow_lt (by positivity) h2'
-    _ = mob ((a : ℝ) / 2 ^ KT) ^ m2 := by rw [mob_dyadic]
-    _ ≤ mob (((yn : ℝ) / yd) ^ m1) ^ m2 := Real.rpow_le_rpow (mob_pos ht).le hm m2_pos.le
+  have hS : (0 : ℝ) < ((2 ^ SY : ℕ) : ℝ) := by exact_mod_cast two_pow_SY_pos
+  have hy1 : (yn : ℝ) / yd ≤ 1 := by
+    rw [div_le_one hydR]; exact_mod_cast hyn
+  apply code_of_real hc (by positivity) (by linarith)
+  · rcases hlo with h | h
+    · exact Or.inl h
+    · right
+      unfold brLo
+      have : (yUp (c - 1) : ℝ) / ((2 ^ SY : ℕ) : ℝ) ≤ (yn : ℝ) / yd := by
+        rw [div_le_div_iff₀ hS hydR]; exact_mod_cast h
+      linarith
+  · rcases hhi with h | h
+    · exact Or.inl h
+    · right
+      unfold brHi
+      have : (yn : ℝ) / yd ≤ (yDown c : ℝ) / ((2 ^ SY : ℕ) : ℝ) := by
+        rw [div_le_div_iff₀ hydR hS]; exact_mod_cast h
+      linarith
+
+/-- `codeOfRat` only ever answers with a certified code -/
+theorem codeOfRat_sound {yn yd c : ℕ} (h : codeOfRat yn yd = some c) :
+    |4095 * nitsToPq (10000 * ((yn : ℝ) / yd)) - c| < 1 / 2 - mu := by
+  unfold codeOfRat at h
+  simp only at h
+  split_ifs at h with hb
+  cases h
+  exact code_of_rat hb
+
+/-- the table of integer nits -/
+theorem nits_table_certified {n : ℕ} (hn : n ≤ 10000) : |4095 * nitsToPq n - codeOfNits n| < 1 / 2 - mu := by
+  have h := nits_ok (Nat.zero_le n) (by omega : n < 10001)
+  rw [nitsCheck, withNat_eq] at h
+  have := code_of_rat h
+  have e : 10000 * ((n : ℝ) / (10000 : ℕ)) = n := by push_cast; field_simp
+  rwa [e] at this
+
+/-- the table of min-luminance values `k/10000` nits -/
+theorem minLum_table_certified {k : ℕ} (hk : k ≤ 10000) :
+    |4095 * nitsToPq ((k : ℝ) / 10000) - codeOfMinLum k| < 1 / 2 - mu := by
+  have h := minLum_ok (Nat.zero_le k) (by omega : k < 10001)
+  rw [minLumCheck, withNat_eq] at h
+  have := code_of_rat h
+  have e : 10000 * ((k : ℝ) / (100000000 : ℕ)) = (k : ℝ) / 10000 := by push_cast; field_simp; ring
+  rwa [e] at this
+
+/-! ## Code → nits → code, and where the exact luminance of a code lies -/
+
+/-- `c1^m2 · 4095 < 1/2`: PQ value of 0 nits rounds to code 0, and every code ≥ 1 is above the clamp -/
+theorem c1_rpow_m2_lt : c1 ^ m2 < 1 / 8190 := by
+  have h : (107 : ℕ) ^ 2523 * 8190 ^ 32 < 1 ^ 32 * 128 ^ 2523 := by decide +kernel
+  have h2 := cast_div_pow_lt (a := 107) (b := 128) (c := 1) (d := 8190) (by norm_num) (by norm_num) h
+  have h3 : ((107 : ℕ) : ℝ) / (128 : ℕ) = c1 := by rw [c1_eq]; norm_num
+  rw [h3] at h2
+  have := rpow_m2_lt_of_pow_lt c1_pos.le (by positivity) h2
+  simpa using this
+
+theorem code_in_inv_range {c : ℕ} (h1 : 1 ≤ c) (h2 : c ≤ 4095) : c1 ^ m2 ≤ (c : ℝ) / 4095 ∧ (c : ℝ) / 4095 ≤ 1 := by
+  have hc1 : (1 : ℝ) ≤ c := by exact_mod_cast h1
+  have hc2 : (c : ℝ) ≤ 4095 := by exact_mod_cast h2
+  constructor
+  · have := c1_rpow_m2_lt
+    have : (1 : ℝ) / 8190 ≤ (c : ℝ) / 4095 := by
+      rw [div_le_div_iff₀ (by norm_num) (by norm_num)]; linarith
+    linarith
+  · rw [div_le_one (by norm_num)]; exact hc2
+
+/-- exact code value of the exact luminance of code `c` -/
+theorem code_value_of_pqToNits {c : ℕ} (hc : c ≤ 4095) (h1 : 1 ≤ c) :
+    4095 * nitsToPq (pqToNits ((c : ℝ) / 4095)) = c := by
+  obtain ⟨ha, hb⟩ := code_in_inv_range h1 hc
+  rw [nitsToPq_pqToNits ha hb]; field_simp
+
+theorem pqToNits_code_range {c : ℕ} (hc : c ≤ 4095) :
+    0 ≤ pqToNits ((c : ℝ) / 4095) ∧ pqToNits ((c : ℝ) / 4095) ≤ 10000 := by
+  have hc2 : (c : ℝ) / 4095 ≤ 1 := by
+    rw [div_le_one (by norm_num)]; exact_mod_cast hc
+  refine ⟨pqToNits_nonneg hc2, ?_⟩
+  rcases Nat.eq_zero_or_pos c with h | h
+  · subst h; simp [pqToNits_zero]
+  · by_contra hn
+    have hgt := nitsToPq_strictMono (by norm_num : (0 : ℝ) ≤ 10000) (not_le.mp hn)
+    rw [nitsToPq_yMax] at hgt
+    have := code_value_of_pqToNits hc h
+    have hc' : (c : ℝ) ≤ 4095 := by exact_mod_cast hc
+    linarith
+
+/-- the exact luminance of code `c` lies strictly between the neighbouring tie-point witnesses:
+above `brHi (c-1)` (whose code value is below `c - 1/2`) and below `brLo (c+1)` (code value above `c + 1/2`) -/
+theorem pqToNits_code_between {c : ℕ} (h1 : 1 ≤ c) (hc : c ≤ 4095) :
+    brHi (c - 1) < pqToNits ((c : ℝ) / 4095) ∧ (c < 4095 → pqToNits ((c : ℝ) / 4095) < brLo (c + 1)) := by
+  have hv := code_value_of_pqToNits hc h1
+  have hr := pqToNits_code_range hc
+  have hmu : mu = 1 / 1000000 := rfl
+  constructor
+  · apply lt_of_nitsToPq_lt hr.1
+    have h2 := bnd_down (j := c - 1) (by omega)
+    have : ((c - 1 : ℕ) : ℝ) = (c : ℝ) - 1 := by rw [Nat.cast_sub h1]; simp
+    rw [this] at h2
+    nlinarith
+  · intro h4
+    apply lt_of_nitsToPq_lt (brLo_nonneg _)
+    have h2 := bnd_up (j := c) h4
+    nlinarith
+
+/-! ## Rounding thresholds (summary strings) -/
+
+theorem thr_cert {i : ℕ} (h1 : 1 ≤ i) (h2 : i ≤ 199) :
+    (thrFloor i : ℝ) < 4095 * nitsToPq (50 * i) ∧ 4095 * nitsToPq (50 * i) < (thrFloor i : ℝ) + 1 := by
+  have h := thr_ok h1 (by omega : i < 200)
+  simp only [thrCheck, Bool.and_eq_true] at h
+  have ha := nitsToPq_gt_of_certGt (by norm_num : 0 < 200) (by norm_num : 0 < 4095) h.1
+  have hb := nitsToPq_lt_of_certLt (by norm_num : 0 < 200) (by norm_num : 0 < 4095) h.2
+  have e : 10000 * ((i : ℝ) / (200 : ℕ)) = 50 * i := by push_cast; field_simp; ring
+  rw [e] at ha hb
+  push_cast at ha hb
+  constructor
+  · rw [div_lt_iff₀ (by norm_num)] at ha; linarith
+  · rw [lt_div_iff₀ (by norm_num)] at hb; linarith
+
+/-- the exact luminance of code `c` against a threshold `50·i` nits: decided by the floor code of the threshold -/
+theorem thr_lt_of_floor_lt {c i : ℕ} (hc1 : 1 ≤ c) (hc : c ≤ 4095) (h1 : 1 ≤ i) (h2 : i ≤ 199)
+    (h : thrFloor i < c) : (50 * i : ℝ) < pqToNits ((c : ℝ) / 4095) := by
+  apply lt_of_nitsToPq_lt (pqToNits_code_range hc).1
+  have hv := code_value_of_pqToNits hc hc1
+  have ht := (thr_cert h1 h2).2
+  have : (thrFloor i : ℝ) + 1 ≤ c := by exact_mod_cast h
+  nlinarith
+
+theorem lt_thr_of_le_floor {c i : ℕ} (hc1 : 1 ≤ c) (hc : c ≤ 4095) (h1 : 1 ≤ i) (h2 : i ≤ 199)
+    (h : c ≤ thrFloor i) : pqToNits ((c : ℝ) / 4095) < (50 * i : ℝ) := by
+  apply lt_of_nitsToPq_lt (by positivity)
+  have hv := code_value_of_pqToNits hc hc1
+  have ht := (thr_cert h1 h2).1
+  have : (c : ℝ) ≤ thrFloor i := by exact_mod_cast h
+  nlinarith
+
+/-- `round (pqToNits (c/4095) / 100)` (the L2 trim "target nits" of the summary) is `nitsRound100 c`, with no tie -/
+theorem round100_certified {c : ℕ} (hc : c ≤ 4095) :
+    |pqToNits ((c : ℝ) / 4095) / 100 - nitsRound100 c| < 1 / 2 := by
+  have h := round100_ok (Nat.zero_le c) (by omega : c < 4096)
+  rw [round100Check, withNat_eq] at h
+  simp only [Bool.and_eq_true, Bool.or_eq_true, decide_eq_true_eq, beq_iff_eq] at h
+  obtain ⟨⟨hk, hlo⟩, hhi⟩ := h
+  generalize nitsRound100 c = k at hk hlo hhi ⊢
+  have hr := pqToNits_code_range hc
+  rw [abs_sub_lt_iff]
+  by_cases h0 : c = 0
+  · subst h0
+    have hk0 : k = 0 := by omega
+    subst hk0
+    simp [pqToNits_zero]
+  have hc1 : 1 ≤ c := by omega
+  constructor
+  · by_cases h100 : k = 100
+    · subst h100; push_cast; linarith [hr.2]
+    · have hh := hhi.resolve_left h100
+      have := lt_thr_of_le_floor hc1 hc (i := 2 * k + 1) (by omega) (by omega) hh
+      push_cast at this
+      linarith
+  · by_cases hk0 : k = 0
+    · subst hk0; push_cast; linarith [hr.1]
+    · have hl := hlo.resolve_left hk0
+      have := thr_lt_of_floor_lt hc1 hc (i := 2 * k - 1) (by omega) (by omega) hl
+      have e : ((2 * k - 1 : ℕ) : ℝ) = 2 * (k : ℝ) - 1 := by
+        rw [Nat.cast_sub (by omega)]; push_cast; ring
+      rw [e] at this
+      linarith
+
+/-- `round (pqToNits (c/4095) / 1000)` (the mastering-display maximum of the summary) is `nitsRound1000 c`, no tie -/
+theorem round1000_certified {c : ℕ} (hc : c ≤ 4095) :
+    |pqToNits ((c : ℝ) / 4095) / 1000 - nitsRound1000 c| < 1 / 2 := by
+  have h := round1000_ok (Nat.zero_le c) (by omega : c < 4096)
+  rw [round1000Check, withNat_eq] at h
+  simp only [Bool.and_eq_true, Bool.or_eq_true, decide_eq_true_eq, beq_iff_eq] at h
+  obtain ⟨⟨hk, hlo⟩, hhi⟩ := h
+  generalize nitsRound1000 c = k at hk hlo hhi ⊢
+  have hr := pqToNits_code_range hc
+  rw [abs_sub_lt_iff]
+  by_cases h0 : c = 0
+  · subst h0
+    have hk0 : k = 0 := by omega
+    subst hk0
+    simp [pqToNits_zero]
+  have hc1 : 1 ≤ c := by omega
+  constructor
+  · by_cases h10 : k = 10
+    · subst h10; push_cast; linarith [hr.2]
+    · have hh := hhi.resolve_left h10
+      have := lt_thr_of_le_floor hc1 hc (i := 20 * k + 10) (by omega) (by omega) hh
+      push_cast at this
+      linarith
+  · by_cases hk0 : k = 0
+    · subst hk0; push_cast; linarith [hr.1]
+    · have hl := hlo.resolve_left hk0
+      have := thr_lt_of_floor_lt hc1 hc (i := 20 * k - 10) (by omega) (by omega) hl
+      have e : ((20 * k - 10 : ℕ) : ℝ) = 20 * (k : ℝ) - 10 := by
+        rw [Nat.cast_sub (by omega)]; push_cast; ring
+      rw [e] at this
+      linarith
 
 end Dovi.Pq
